@@ -246,6 +246,24 @@ IDENTITIES = [
     ("{x} / {y} : {z}", "{x} / ({y}:{z})"),
     ("{x} + {y} : {z} ** 2", "{x} + ({y}:({z} ** 2))"),
     ("{x} + {y} * {z}", "{x} + ({y} * {z})"),
+    # higher powers, distributivity of ':', removal after expansion, intercept arithmetic, nesting inside parts
+    ("({x} + {y} + {z}) ** 3", "{x} * {y} * {z}"),
+    ("({x} + {y} + {z}) ** 4", "({x} + {y} + {z}) ** 3"),
+    ("({x} + {y}) ** 1", "{x} + {y}"),
+    ("{x}:({y} + {z})", "{x}:{y} + {x}:{z}"),
+    ("({x} + {y}):({z} + {x})", "{x}:{z} + {x}:{x} + {y}:{z} + {y}:{x}"),
+    ("{x} * {y} - {x}:{y}", "{x} + {y} - {x}:{y}"),
+    ("({x} + {y} + {z}) ** 2 - {y}:{z}", "{x} + {y} + {z} + {x}:{y} + {x}:{z} - {y}:{z}"),
+    ("{x} * {y} - ({x} + {y})", "{x}:{y} - {x} - {y}"),
+    ("{x} + 0", "{x} - 1"),
+    ("0 + {x} + {y}", "{x} + {y} - 1"),
+    ("{x} - 0", "{x} + 1"),
+    ("-1 + {x}", "{x} - 1"),
+    ("{x} + {y} - 1 + 1", "{x} + {y}"),
+    ("w ~ {x} / {y} | {y} * {z} | ({x} + {z}) ** 2", "w ~ {x} + {x}:{y} | {y} + {z} + {y}:{z} | {x} + {z} + {x}:{z}"),
+    ("{x} %in% {y}", "{y} + {y}:{x}"),
+    ("({x} + {y}) %in% {z}", "{z} / ({x} + {y})"),
+    ("{x} : {y} : {z}", "{z} : ({y} : {x})"),
 ]
 
 
@@ -269,10 +287,10 @@ def _norm(spec, **kw):
 
 def identity(i: int, x: int, y: int, z: int) -> bool:
     """
-    pre: 0 <= i < 23 and 0 <= x < 3 and 0 <= y < 3 and 0 <= z < 3 and i == __SHARD__
+    pre: 0 <= i < 40 and 0 <= x < 3 and 0 <= y < 3 and 0 <= z < 3 and i == __SHARD__
     post: _
     """
-    i, x, y, z = _pick(i, 0, 22), _pick(x, 0, 2), _pick(y, 0, 2), _pick(z, 0, 2)
+    i, x, y, z = _pick(i, 0, 39), _pick(x, 0, 2), _pick(y, 0, 2), _pick(z, 0, 2)
     names = ["a", "b", "c"]
     l, r = IDENTITIES[i]
     sub = dict(x=names[x], y=names[y], z=names[z])
